@@ -153,7 +153,9 @@ func genMixedOp(r *RNG, origin string, idPrefix string, store *[]M) M {
 		s.AttAlg = pick(r, attAlgsFor(f))
 		s.CredID = append([]byte(idPrefix), r.Bytes(8)...)
 		if r.P(1, 3) {
-			s.Dev[pick(r, regDeviations[:16])] = true
+			s.Dev[pick(r, regDeviations[:18])] = true
+		} else if r.P(1, 6) {
+			s.Dev["cd.memberAbsent"] = true // what a decoder left behind by another ceremony must not fill in
 		}
 		if r.P(1, 3) {
 			// a per-call policy: it must not outlive the call (a later or concurrent ceremony without options sees the defaults)
@@ -169,6 +171,8 @@ func genMixedOp(r *RNG, origin string, idPrefix string, store *[]M) M {
 	s := newAuthSpec(r, origin, kp, id, owner, kp.COSE(true))
 	if r.P(1, 3) {
 		s.Dev[pick(r, authDeviations)] = true
+	} else if r.P(1, 6) {
+		s.Dev["cd.memberAbsent"] = true
 	}
 	op := buildAssertion(r, s)
 	*store = append(*store, s.Store...)
